@@ -150,6 +150,13 @@ func checkNAParams(what string, f *sipsp.PFromBody, buf []byte) string {
 			q = append(q, p.val)
 		}
 	}
+	// no such parameter at all: nothing may be reported for it
+	if len(q) == 0 && f.Q != 0 {
+		return fmt.Sprintf("%s has no q parameter but Q=%d is reported (parameters %q)", what, f.Q, f.Params.Get(buf))
+	}
+	if len(exp) == 0 && (f.HasExpires || f.Expires != 0) {
+		return fmt.Sprintf("%s has no expires parameter but HasExpires=%v Expires=%d (parameters %q)", what, f.HasExpires, f.Expires, f.Params.Get(buf))
+	}
 	if len(exp) == 1 && allDigits([]byte(exp[0])) {
 		v := bigOf([]byte(exp[0]))
 		want := v
